@@ -300,6 +300,14 @@ class CallMixin:
                 st.assume(z3.Not(g))
         # normal outcome
         self.havoc_modifies(c, pre, st, sub)
+        if any('allocated(' in e or 'fresh_obj(' in e for e in c.all_ensures()):
+            # the callee may allocate: the allocation set grows monotonically (what it says about allocated()/fresh_obj()
+            # in its postcondition refers to this grown set, old(allocated()) to the set before the call)
+            a0 = st.alloc_arr()
+            a1 = fresh('alloc', z3.ArraySort(Ref, z3.BoolSort()))
+            x = z3.Const('x!al', Ref)
+            st.assume(z3.ForAll([x], z3.Implies(z3.Select(a0, x), z3.Select(a1, x))))
+            st.heap['$alloc'] = a1
         res = None
         post = st.fork()
         post.spec = True
